@@ -435,6 +435,10 @@ def _oracle_graph(case):
                 fails.append(_fail("onto-1..N/%s" % be, "canonical node ids %r for %d nodes; input %r" % (sorted(cg.nodes), P.number_of_nodes(), p)))
             s1 = c.canonical_signature(P)
             s2 = _canoniser(be).canonical_signature(_nx(p))
+            if be == "nauty":
+                # NautyCanonicalizer.graph_signature (digest of the label of the canonical graph) rides along with the signature
+                s1 = s1 + "/" + c.nauty.graph_signature(P)
+                s2 = s2 + "/" + _canoniser(be).nauty.graph_signature(_nx(p))
             if s1 != s2:
                 fails.append(_fail("sig-function/%s" % be, "two evaluations on the same object gave %s / %s" % (s1, s2)))
             info.append((p, meta, P, cg, s1))
@@ -462,7 +466,12 @@ def _oracle_graph(case):
             H = _nx(h)
             iso = _iso(_cov(P0), _cov(H)) is not None
             sh = c.canonical_signature(H)
-            if sh == s0 and not iso:
+            if be == "nauty":
+                gsh = c.nauty.graph_signature(H)
+                if gsh == s0.split("/")[1] and not iso:
+                    fails.append(_fail("sig-sound/nauty", "equal NautyCanonicalizer.graph_signature for non-isomorphic graphs A=%r B=%r" % (p0, h)))
+                sh = sh + "/" + gsh
+            if sh.split("/")[0] == s0.split("/")[0] and not iso:
                 fails.append(_fail("sig-sound/%s" % be, "equal signatures for non-isomorphic graphs A=%r B=%r" % (p0, h)))
             if (SynGraph(H, c) == SynGraph(P0, c)) and not iso:
                 fails.append(_fail("value-objects", "SynGraph equal for non-isomorphic graphs (%s) A=%r B=%r" % (be, p0, h)))
